@@ -316,11 +316,13 @@ def _item(T, x):
 
 def cases(tier, seed):
     out = []
-    sizes = (2, 3, 4) if tier == "quick" else (2, 3, 4, 5)
+    sizes = (2, 3, 4) if tier == "quick" else (2, 3, 4, 5, 6, 7)
     for n in sizes:
-        for variant in (0, 1):
+        for variant in ((0, 1) if tier == "quick" else (0, 1, 2, 3)):
             for m in sorted({1, 2, n - 1, n, n + 1, n + 3} - {0}):
                 if variant == 1 and tier == "quick" and m not in (n, n + 1):
+                    continue
+                if variant >= 2 and m not in (n - 1, n, n + 1):
                     continue
                 out.append((f"real:n{n}v{variant}m{m}", case_lanczos, dict(n=n, max_iters=m, variant=variant)))
         out.append((f"tol0:n{n}m{n + 3}", case_lanczos, dict(n=n, max_iters=n + 3, tol=0.0)))
